@@ -409,3 +409,105 @@ func TestLargeCapacity(t *testing.T) {
 		c.NonTrivial()
 	})
 }
+
+// A rule that can never block does not change what the other rules decide, however it came to be loaded: a history runs
+// under rule A (argument 0), then the rules are reloaded as [A'] or as [A', B] where A' is A with another threshold and B
+// meters argument 1 with an unreachable threshold (same duration, behaviour and capacity as A, so the loader may hand
+// statistics around), and the history continues with two-argument requests. Both runs must decide identically.
+func TestAddedInertRule(t *testing.T) {
+	hx.Check(t, hx.N{Quick: 4000, Thorough: 40000}, func(t *rapid.T, c *hx.Case) {
+		vs := []interface{}{"a", "b", 1, 2.5}
+		throttling := rapid.Bool().Draw(t, "throttling")
+		mk := func(id string, idx int, thr int64) *hotspot.Rule {
+			r := &hotspot.Rule{ID: id, Resource: "h", MetricType: hotspot.QPS, ParamIndex: idx, Threshold: thr, DurationInSec: 1, SpecificItems: map[interface{}]int64{}}
+			if throttling {
+				r.ControlBehavior, r.MaxQueueingTimeMs = hotspot.Throttling, 0
+			}
+			return r
+		}
+		T1 := int64(rapid.IntRange(1, 3).Draw(t, "T1"))
+		T2 := T1 + int64(rapid.IntRange(1, 2).Draw(t, "more"))
+		nB := rapid.IntRange(1, 2).Draw(t, "inertRules")
+		perRes := rapid.Bool().Draw(t, "perResource")
+		bFirst := rapid.Bool().Draw(t, "inertFirst")
+		sameArg := rapid.IntRange(0, 2).Draw(t, "inertOnTheSameArgument") == 0
+		if sameArg {
+			bFirst = false // (listed before the modified rule it would legitimately be offered the old statistics first: see C14, P30)
+		}
+		inertIdx := 1
+		if sameArg {
+			inertIdx = 0
+		}
+		type rq struct {
+			dt     uint64
+			v0, v1 int
+		}
+		var h1, h2 []rq
+		for i, n := 0, rapid.IntRange(1, 6).Draw(t, "n1"); i < n; i++ {
+			h1 = append(h1, rq{uint64(rapid.SampledFrom([]int{0, 0, 1, 300, 1000}).Draw(t, "dt")), rapid.IntRange(0, len(vs)-1).Draw(t, "v0"), rapid.IntRange(0, len(vs)-1).Draw(t, "v1")})
+		}
+		for i, n := 0, rapid.IntRange(1, 10).Draw(t, "n2"); i < n; i++ {
+			h2 = append(h2, rq{uint64(rapid.SampledFrom([]int{0, 0, 1, 300, 1000}).Draw(t, "dt")), rapid.IntRange(0, len(vs)-1).Draw(t, "v0"), rapid.IntRange(0, len(vs)-1).Draw(t, "v1")})
+		}
+		t0 := hx.Epoch + uint64(rapid.IntRange(0, 999).Draw(t, "t0"))
+		play := func(withInert bool) (out []bool) {
+			hx.Reset(t0)
+			if _, err := hotspot.LoadRules([]*hotspot.Rule{mk("A", 0, T1)}); err != nil {
+				t.Fatalf("load: %v", err)
+			}
+			do := func(q rq) {
+				hx.C.AddMs(q.dt)
+				hx.C.TakeSlept()
+				e, blk := sentinel.Entry("h", sentinel.WithArgs(vs[q.v0], vs[q.v1]))
+				if e != nil {
+					e.Exit()
+				}
+				out = append(out, blk == nil)
+			}
+			for _, q := range h1 {
+				do(q)
+			}
+			next := []*hotspot.Rule{mk("A", 0, T2)}
+			if withInert {
+				var inert []*hotspot.Rule
+				for i := 0; i < nB; i++ {
+					inert = append(inert, mk(fmt.Sprint("B", i), inertIdx, 1000000000+int64(i)))
+				}
+				if bFirst {
+					next = append(inert, next...)
+				} else {
+					next = append(next, inert...)
+				}
+			}
+			var err error
+			if perRes {
+				_, err = hotspot.LoadRulesOfResource("h", next)
+			} else {
+				_, err = hotspot.LoadRules(next)
+			}
+			if err != nil || len(hotspot.GetRulesOfResource("h")) != len(next) {
+				t.Fatalf("reload: %v", err)
+			}
+			for _, q := range h2 {
+				do(q)
+			}
+			return out
+		}
+		alone, with := play(false), play(true)
+		c.Op("T %d->%d throttling=%v inert rules=%d on argument %d first=%v perResource=%v: %v vs %v", T1, T2, throttling, nB, inertIdx, bFirst, perRes, alone, with)
+		c.ClassIf(sameArg, "inert-rules-on-the-same-argument")
+		sawBlock := false
+		for i := range alone {
+			if alone[i] != with[i] {
+				t.Fatalf("request %d (of %d before + %d after the reload) is admitted=%v when the reload brings only the modified rule and admitted=%v when it also brings %d rule(s) that can never block: the added rules changed the decision (before/after: %v / %v)", i, len(h1), len(h2), alone[i], with[i], nB, alone, with)
+			}
+			if !alone[i] {
+				sawBlock = true
+			}
+		}
+		c.ClassIf(sawBlock, "has-block")
+		if sawBlock {
+			c.NonTrivial()
+		}
+	})
+}
